@@ -110,6 +110,7 @@ type vnNet struct {
 	cnt map[string]*vnCnt
 	// sync streams
 	syncOpen int64
+	wants    sync.Map // goroutine id -> vnWant
 	forgeN   int64 // forged sync answers so far (selects the next forgery kind)
 	parkedRun func(addr string) int64 // goroutines of the run loop parked at a gate
 	info     *dchain.Info
@@ -121,7 +122,6 @@ type vnCnt struct {
 	aggIdle, aggSubmit, putsOK       int64
 	bcastPeers, sends                int64
 	catchupArmed, catchupFired       int64
-	aggWant, syncWant                int64 // round the aggregator / sync is about to put (0 = none)
 	lastSubmitFrom                   atomic.Value
 }
 
@@ -188,8 +188,9 @@ func (vn *vnNet) installHooks() {
 		atomic.AddInt64(&c.aggSubmit, 1)
 		c.lastSubmitFrom.Store(fmt.Sprintf("%s/%d", a[1].(string), a[2].(uint64)))
 	})
-	cnt("agg.beforeAppend", func(c *vnCnt, a []any) { atomic.StoreInt64(&c.aggWant, int64(a[1].(uint64))) })
-	cnt("sync.beforePut", func(c *vnCnt, a []any) { atomic.StoreInt64(&c.syncWant, int64(a[1].(uint64))) })
+	// the Put that follows on the same goroutine is the aggregator's / the sync manager's write of that round
+	cnt("agg.beforeAppend", func(c *vnCnt, a []any) { vn.wants.Store(vlib.GoID(), vnWant{"agg", a[1].(uint64)}) })
+	cnt("sync.beforePut", func(c *vnCnt, a []any) { vn.wants.Store(vlib.GoID(), vnWant{"sync", a[1].(uint64)}) })
 	for _, p := range []string{"append.locked", "append.stored", "cb.beforeDispatch", "cb.dispatch", "cb.add", "serve.afterScan", "serve.registered"} {
 		s.OnPoint(p, func(a []any) { vn.act() })
 	}
@@ -284,13 +285,10 @@ func (s *vnStore) Put(ctx context.Context, b *common.Beacon) error {
 	err := s.Store.Put(ctx, b)
 	vn.act()
 	c := vn.c(s.node.addr)
-	aw := b.Round > 0 && atomic.LoadInt64(&c.aggWant) == int64(b.Round)
-	sw := b.Round > 0 && atomic.LoadInt64(&c.syncWant) == int64(b.Round)
-	if aw {
-		atomic.StoreInt64(&c.aggWant, 0)
-	}
-	if sw {
-		atomic.StoreInt64(&c.syncWant, 0)
+	aw, sw := false, false
+	if w, ok := vn.wants.Load(vlib.GoID()); ok && b.Round > 0 && w.(vnWant).round == b.Round {
+		vn.wants.Delete(vlib.GoID())
+		aw, sw = w.(vnWant).kind == "agg", w.(vnWant).kind == "sync"
 	}
 	res := "ok"
 	if err != nil {
@@ -936,6 +934,11 @@ type vnScript struct {
 	StartAt int64    `json:"start"`
 	Group   []int    `json:"group"`
 	Steps   []vnStep `json:"steps"`
+}
+
+type vnWant struct {
+	kind  string
+	round uint64
 }
 
 type vnRun struct {
